@@ -1,8 +1,17 @@
-(* Model/Registry.v -- executable model of ropt.plugins._manager.PluginManager (one plug-in type).
-   Mirrors add_plugin / get_plugin / is_supported / plugins.  Names are real strings and the model
-   lower-cases them itself (str.lower on ASCII), splits "plugin/method" at the first slash
-   (str.split("/", maxsplit=1)).  A plug-in is a table of lower-cased method names, a discovery flag,
-   or the built-in external optimizer, which supports exactly what a *fresh* manager resolves. *)
+(* Model/Registry.v -- executable model of ropt.plugins._manager.PluginManager.
+
+   Structured like the code:
+   * a registry is a Python dict (insertion-ordered association list with unique keys); the two dict
+     operations the code uses are modelled as such: `dset` (d[k] = v: replace in place or append) and
+     `dupdate` (d.update(src));  add_plugin(prioritize=True) is `{name: plugin}.update(dict(old))`;
+   * names are real strings; the model lower-cases them itself (str.lower on ASCII) at add_plugin and at
+     lookup, and splits "plugin/method" at the first slash (str.split("/", maxsplit=1));
+   * the part after the slash (or the bare method) is handed to the plug-in verbatim; a plug-in is a
+     case-insensitive table (`Table`: method.lower() in {...}, all built-ins), a case-sensitive table
+     (`Exact`), or the built-in external optimizer (`External`), which supports exactly what a *fresh*
+     manager resolves for plug-in type "optimizer";
+   * a manager holds one registry per plug-in type (self._plugins[plugin_type]); a universe is a list of
+     managers.  Operations on an unknown type / manager answer `ABad` (KeyError / IndexError). *)
 From Coq Require Import List Bool Arith String Ascii.
 Import ListNotations.
 
@@ -22,71 +31,129 @@ Fixpoint split_slash (s : string) : string * option string :=
   end.
 
 Inductive pkind :=
-  | Table (methods : list string)     (* is_supported m  :=  lower m in methods *)
-  | External.                         (* is_supported m  :=  a fresh manager supports m *)
+  | Table (methods : list string)     (* is_supported m  :=  m.lower() in methods *)
+  | Exact (methods : list string)     (* is_supported m  :=  m in methods (case-sensitive plug-in) *)
+  | External.                         (* is_supported m  :=  a fresh manager supports m as an optimizer *)
 Record plugin := { pid : nat; kind : pkind; disc : bool }.
-Definition registry := list (string * plugin).    (* lower-cased name -> plug-in, in lookup order *)
+Definition registry := list (string * plugin).    (* dict: lower-cased name -> plug-in, in insertion order *)
 
-Fixpoint find_name (r : registry) (n : string) : option plugin :=
+Definition names (r : registry) : list string := map fst r.
+Definition listing (r : registry) : list (string * nat) := map (fun np => (fst np, pid (snd np))) r.
+
+(* ---- the Python dict operations used by add_plugin ------------------------------------- *)
+Fixpoint find_name (r : registry) (n : string) : option plugin :=             (* d.get(n) *)
   match r with [] => None | (k, v) :: t => if String.eqb k n then Some v else find_name t n end.
+Definition dmem (r : registry) (n : string) : bool :=                          (* n in d *)
+  match find_name r n with Some _ => true | None => false end.
+Fixpoint dset (d : registry) (k : string) (v : plugin) : registry :=           (* d[k] = v *)
+  match d with
+  | [] => [(k, v)]
+  | (k', v') :: t => if String.eqb k' k then (k', v) :: t else (k', v') :: dset t k v
+  end.
+Definition dupdate (d src : registry) : registry :=                            (* d.update(src) *)
+  fold_left (fun acc kv => dset acc (fst kv) (snd kv)) src d.
 
 Definition in_table (m : string) (ms : list string) : bool := existsb (String.eqb (lower m)) ms.
+Definition in_exact (m : string) (ms : list string) : bool := existsb (String.eqb m) ms.
+
+Inductive op :=
+  | Add (name : string) (p : plugin) (prio : bool)      (* add_plugin(type, name, p, prioritize=prio) *)
+  | Get (method : string)                               (* get_plugin(type, method) *)
+  | Sup (method : string)                               (* is_supported(type, method) *)
+  | Lst                                                 (* list(plugins(type)) *)
+  | Fwd (method : string).                              (* ExternalOptimizer.__init__: resolve the part after
+                                                           "external/" in a fresh manager (ok / ConfigError) *)
+Inductive ans := AOk | AErr | APlug (id : nat) | ABool (b : bool) | AList (l : list (string * nat)) | ABad.
+
+Fixpoint upd {A} (l : list A) (i : nat) (x : A) : list A :=
+  match l, i with [] , _ => [] | _ :: t, O => x :: t | h :: t, S j => h :: upd t j x end.
+
+(* a family of independent components addressed by index (types inside a manager, managers in a universe) *)
+Section Family.
+  Context {St Op : Type}.
+  Variable stp : St -> Op -> St * ans.
+  Definition fstep (l : list St) (io : nat * Op) : list St * ans :=
+    match nth_error l (fst io) with
+    | Some s => let (s', a) := stp s (snd io) in (upd l (fst io) s', a)
+    | None => (l, ABad)
+    end.
+  Fixpoint frun (l : list St) (ops : list (nat * Op)) : list ans * list St :=
+    match ops with
+    | [] => ([], l)
+    | o :: t => let (l', a) := fstep l o in let (r, lf) := frun l' t in (a :: r, lf)
+    end.
+End Family.
 
 Section WithInit.
-  Variable init : registry.     (* what PluginManager() contains right after construction *)
+  Variable oinit : registry.    (* the "optimizer" registry of PluginManager() right after construction *)
 
   (* fuel bounds the external plug-in's recursion into a fresh manager; each level strips one
-     "name/" prefix, so String.length of the method is enough fuel. *)
+     "name/" prefix, so String.length of the method is enough fuel (Proofs: supports_fuel). *)
   Fixpoint supports (fuel : nat) (p : plugin) (m : string) : bool :=
     match kind p with
     | Table ms => in_table m ms
+    | Exact ms => in_exact m ms
     | External =>
         match fuel with
         | O => false
         | S f =>
-            (* fresh.get_plugin(m) succeeds *)
+            (* PluginManager().is_supported("optimizer", m) *)
             match split_slash m with
             | (h, Some t) =>
-                match find_name init (lower h) with Some q => supports f q t | None => false end
-            | (h, None) => existsb (fun np => disc (snd np) && supports f (snd np) h) init
+                match find_name oinit (lower h) with Some q => supports f q t | None => false end
+            | (h, None) => existsb (fun np => disc (snd np) && supports f (snd np) h) oinit
             end
         end
     end.
 
   Definition fuel_of (m : string) : nat := S (String.length m).
+  Definition sup1 (p : plugin) (m : string) : bool := supports (fuel_of m) p m.   (* p.is_supported(m) *)
 
   Fixpoint first_disc (r : registry) (m : string) : option plugin :=
     match r with
     | [] => None
-    | (_, p) :: t => if disc p && supports (fuel_of m) p m then Some p else first_disc t m
+    | (_, p) :: t => if disc p && sup1 p m then Some p else first_disc t m
     end.
 
   Definition get (r : registry) (method : string) : option plugin :=
     match split_slash method with
     | (h, Some t) =>
         match find_name r (lower h) with
-        | Some p => if supports (fuel_of t) p t then Some p else None
+        | Some p => if sup1 p t then Some p else None
         | None => None
         end
     | (h, None) => first_disc r h
     end.
 
-  Inductive op :=
-    | Add (name : string) (p : plugin) (prio : bool)
-    | Get (method : string)
-    | Sup (method : string).
-  Inductive ans := AOk | AErr | APlug (id : nat) | ABool (b : bool).
+  (* which registered plug-ins get_plugin asks (plugin.is_supported calls: plug-in id, argument) *)
+  Fixpoint consulted_bare (r : registry) (m : string) : list (nat * string) :=
+    match r with
+    | [] => []
+    | (_, p) :: t => if disc p then (pid p, m) :: (if sup1 p m then [] else consulted_bare t m)
+                     else consulted_bare t m
+    end.
+  Definition consulted (r : registry) (method : string) : list (nat * string) :=
+    match split_slash method with
+    | (h, Some t) => match find_name r (lower h) with Some p => [(pid p, t)] | None => [] end
+    | (h, None) => consulted_bare r h
+    end.
+
+  Definition add (r : registry) (n : string) (p : plugin) (prio : bool) : registry * ans :=
+    let nl := lower n in
+    if dmem r nl then (r, AErr)
+    else if prio then (dupdate [(nl, p)] r, AOk)
+    else (dset r nl p, AOk).
 
   Definition step (r : registry) (o : op) : registry * ans :=
     match o with
-    | Add n p prio =>
-        let nl := lower n in
-        match find_name r nl with
-        | Some _ => (r, AErr)
-        | None => ((if prio then (nl, p) :: r else r ++ [(nl, p)]), AOk)
-        end
+    | Add n p prio => add r n p prio
     | Get m => (r, match get r m with Some p => APlug (pid p) | None => AErr end)
     | Sup m => (r, ABool (match get r m with Some _ => true | None => false end))
+    | Lst => (r, AList (listing r))
+    | Fwd m => (r, match split_slash m with
+                   | (_, Some t) => match get oinit t with Some _ => AOk | None => AErr end
+                   | (_, None) => ABad
+                   end)
     end.
 
   Fixpoint run (r : registry) (ops : list op) : list ans * registry :=
@@ -95,19 +162,22 @@ Section WithInit.
     | o :: t => let (r', a) := step r o in let (l, rf) := run r' t in (a :: l, rf)
     end.
 
-  (* several managers: operation addressed to manager i *)
-  Fixpoint upd {A} (l : list A) (i : nat) (x : A) : list A :=
-    match l, i with [] , _ => [] | _ :: t, O => x :: t | h :: t, S j => h :: upd t j x end.
-  Definition ustep (u : list registry) (io : nat * op) : list registry * ans :=
-    match nth_error u (fst io) with
-    | Some r => let (r', a) := step r (snd io) in (upd u (fst io) r', a)
-    | None => (u, AErr)
-    end.
-  Fixpoint urun (u : list registry) (ops : list (nat * op)) : list ans * list registry :=
+  (* a manager: one registry per plug-in type; a universe: several managers *)
+  Definition manager := list registry.
+  Definition mstep : manager -> nat * op -> manager * ans := fstep step.
+  Definition mrun : manager -> list (nat * op) -> list ans * manager := frun step.
+  Definition ustep : list manager -> nat * (nat * op) -> list manager * ans := fstep mstep.
+  Definition urun : list manager -> list (nat * (nat * op)) -> list ans * list manager := frun mstep.
+
+  Definition reg_of (u : list manager) (i t : nat) : registry :=
+    match nth_error u i with Some m => nth t m [] | None => [] end.
+  Fixpoint crun (u : list manager) (ops : list (nat * (nat * op))) : list (list (nat * string)) :=
     match ops with
-    | [] => ([], u)
-    | o :: t => let (u', a) := ustep u o in let (l, uf) := urun u' t in (a :: l, uf)
+    | [] => []
+    | o :: rest =>
+        (match snd (snd o) with
+         | Get m | Sup m => consulted (reg_of u (fst o) (fst (snd o))) m
+         | _ => []
+         end) :: crun (fst (ustep u o)) rest
     end.
 End WithInit.
-
-Definition names (r : registry) : list string := map fst r.
